@@ -343,9 +343,13 @@ class Driver(object):
         return APPS[i % self.p.napps]
 
     def side_of(self, i):
+        if i == 11 and self.p.name == "hostile":
+            return ""
         return SIDES[i % self.p.nsides]
 
     def mailbox_literal(self, app, i):
+        if i == 5 and app == APPS[0]:
+            return ""           # empty mailbox id, in one app only (R3)
         m = MAILBOXES[i % self.p.nmail]
         if self.p.cross_app_mailbox:
             return m
@@ -353,6 +357,8 @@ class Driver(object):
 
     def np_choice(self, cs, b):
         pool = NAMEPLATES[:self.p.nnames]
+        if b == 11:
+            return ""           # the empty string is a valid identifier too
         if b % 2 == 0 and cs.app in self.hot_np:
             return self.hot_np[cs.app]
         known = self.known_np.get(cs.app, [])
@@ -543,6 +549,10 @@ class Driver(object):
             if b % 3 == 2:
                 holes |= {1 + c % 9}
             names = ["%d" % i for i in range(1, 1000) if i not in holes]
+        elif v == 6:
+            # a whole tier taken except one hole, plus non-canonical spellings of the hole
+            h = 1 + b % 9
+            names = ["%d" % i for i in range(1, 10) if i != h] + ["0%d" % h, "00%d" % h, " %d" % h, "%d " % h, "+%d" % h][: 1 + c % 5]
         else:
             names = [self.LOOKALIKES[(b + i) % len(self.LOOKALIKES)] for i in range(1 + c % 4)]
         if names:
